@@ -43,6 +43,7 @@ class Pack:
     def __init__(self, form, members):
         self.form = form            # "zip" | "package"
         self.members = members
+        self.nested = None          # name of the inner Index.zip of a zipped package (zip form only)
         self.log: list[str] = []    # what the transformations did (for replays / distributions)
         self.stats: dict = {}
 
@@ -67,9 +68,22 @@ def load(path) -> Pack:
                 else:
                     members.append(Member(rel, p.read_bytes(), zipfile.ZIP_STORED, False))
         return Pack("package", members)
+    members = []
+    nested = None
     with zipfile.ZipFile(path) as z:
-        members = [Member(i.filename, z.read(i.filename), i.compress_type, False) for i in z.infolist()]
-    return Pack("zip", members)
+        for i in z.infolist():
+            data = z.read(i.filename)
+            if i.filename.lower().endswith("index.zip") and nested is None:
+                # a zipped package: the members of the inner Index.zip are read at this position
+                nested = i.filename
+                with zipfile.ZipFile(io.BytesIO(data)) as z2:
+                    for j in z2.infolist():
+                        members.append(Member(j.filename, z2.read(j.filename), j.compress_type, True))
+            else:
+                members.append(Member(i.filename, data, i.compress_type, False))
+    pack = Pack("zip", members)
+    pack.nested = nested
+    return pack
 
 
 def _zip_write(z, m: Member):
@@ -84,8 +98,20 @@ def save(pack: Pack, path) -> Path:
     if path.exists():
         shutil.rmtree(path) if path.is_dir() else path.unlink()
     if pack.form == "zip":
+        nested = getattr(pack, "nested", None)
         with zipfile.ZipFile(path, "w") as z:
+            done = False
             for m in pack.members:
+                if m.in_index and nested:
+                    if not done:       # the inner archive sits where its first member sits
+                        buf = io.BytesIO()
+                        with zipfile.ZipFile(buf, "w") as z2:
+                            for m2 in pack.members:
+                                if m2.in_index:
+                                    _zip_write(z2, m2)
+                        _zip_write(z, Member(nested, buf.getvalue(), zipfile.ZIP_STORED))
+                        done = True
+                    continue
                 _zip_write(z, m)
         return path
     path.mkdir(parents=True)
@@ -321,10 +347,16 @@ def t_method(pack: Pack, rng, style=None):
 
 def t_form(pack: Pack, rng):
     if pack.form == "zip":
-        # a nested Index.zip (zipped package) cannot be expressed as loose members: keep such packs as they are
         if any(m.name.lower().endswith("index.zip") for m in pack.members):
-            pack.log.append("form: nested Index.zip, unchanged")
+            pack.log.append("form: more than one nested Index.zip, unchanged")
             return False
+        if getattr(pack, "nested", None):
+            # a zipped package: flatten it into a single-file document
+            for m in pack.members:
+                m.in_index = False
+            pack.nested = None
+            pack.log.append("form: zipped package -> single file")
+            return True
         for m in pack.members:
             m.in_index = m.name.startswith("Index/") and not m.name.endswith("/")
         pack.form = "package"
@@ -332,6 +364,7 @@ def t_form(pack: Pack, rng):
         for m in pack.members:
             m.in_index = False
         pack.form = "zip"
+        pack.nested = None
     pack.log.append(f"form: -> {pack.form}")
     return True
 
@@ -388,11 +421,26 @@ def row_is_blank(ri) -> bool:
     return all(o < 0 for o in _offsets(ri))
 
 
+def _set_rowinfos(tile, keep):
+    copies = []
+    for ri in keep:
+        c = type(ri)()
+        c.CopyFrom(ri)
+        copies.append(c)
+    del tile.rowInfos[:]
+    for c in copies:
+        tile.rowInfos.add().CopyFrom(c)
+
+
+HEADER_STYLES = ("add", "remove", "drop-rowinfo-keep-header", "drop-rowinfo-and-header")
+
+
 def t_headers(pack: Pack, rng, style=None):
-    """Header records of rows without storage are optional, and so are the rowInfos of rows that store no cell."""
+    """Header records of rows without storage are optional, and so are the rowInfos of rows that store no cell.
+    Per table one of the applicable styles is chosen (or `style` when given and applicable)."""
     msgs = Messages(pack)
-    style = style or rng.choice(["add", "add", "remove", "drop-rowinfo-keep-header", "drop-rowinfo-and-header", "mixed"])
     changed = 0
+    used = []
     for ident, tm, buckets, tiles, tsz in table_layouts(msgs):
         if not buckets:
             continue
@@ -401,62 +449,59 @@ def t_headers(pack: Pack, rng, style=None):
         for tileid, tid_, tile in tiles:
             for ri in tile.rowInfos:
                 stored[tileid * tsz + ri.tile_row_index] = ri
-        st = style if style != "mixed" else rng.choice(["add", "remove", "drop-rowinfo-keep-header", "drop-rowinfo-and-header"])
-        # rows that store no cell: drop their rowInfo
+        have = set()
+        for bid, b in buckets:
+            have |= {h.index for h in b.headers}
+        blank = sorted(r for r, ri in stored.items() if row_is_blank(ri))
+        empty = [r for r in range(nrows) if r not in stored]
+        can = []
+        if any(r not in have for r in empty):
+            can.append("add")
+        if any(r in have for r in empty):
+            can.append("remove")
+        if blank:
+            can += ["drop-rowinfo-keep-header", "drop-rowinfo-and-header"]
+        if style is not None:
+            can = [c for c in can if c == style]
+        if not can:
+            continue
+        st = rng.choice(can)
+        used.append(st)
         if st.startswith("drop-rowinfo"):
-            blank = sorted(r for r, ri in stored.items() if row_is_blank(ri))
-            victims = set(r for r in blank if rng.random() < 0.6)
-            if blank and not victims:
-                victims = {rng.choice(blank)}
+            victims = set(r for r in blank if rng.random() < 0.6) or {rng.choice(blank)}
             for tileid, tid_, tile in tiles:
                 keep = [ri for ri in tile.rowInfos if (tileid * tsz + ri.tile_row_index) not in victims]
                 if len(keep) != len(tile.rowInfos):
-                    copies = []
-                    for ri in keep:
-                        c = type(ri)()
-                        c.CopyFrom(ri)
-                        copies.append(c)
-                    del tile.rowInfos[:]
-                    for c in copies:
-                        tile.rowInfos.add().CopyFrom(c)
+                    _set_rowinfos(tile, keep)
                     msgs.touch(tid_)
-            for r in victims:
-                del stored[r]
             changed += len(victims)
             pack.bump("headers:rowinfo-dropped", len(victims))
             if st == "drop-rowinfo-and-header":
                 changed += _remove_headers(msgs, buckets, victims, pack)
-            continue
-        empty = [r for r in range(nrows) if r not in stored]
-        have = set()
-        for bid, b in buckets:
-            have |= {h.index for h in b.headers}
-        if st == "add":
+        elif st == "add":
             cand = [r for r in empty if r not in have]
-            pick = [r for r in cand if rng.random() < 0.5]
-            if cand and not pick:
-                pick = [rng.choice(cand)]
-            if pick:
-                bid, b = buckets[rng.randrange(len(buckets))]
-                hs = []
-                for h in b.headers:
-                    c = type(h)()
-                    c.CopyFrom(h)
-                    hs.append(c)
-                for r in pick:
-                    hs.append(type(b).Header(index=r, numberOfCells=0, size=0.0, hidingState=0))
-                hs.sort(key=lambda h: h.index)
-                del b.headers[:]
-                for h in hs:
-                    b.headers.add().CopyFrom(h)
-                msgs.touch(bid)
-                changed += len(pick)
-                pack.bump("headers:added", len(pick))
-        elif st == "remove":
+            pick = [r for r in cand if rng.random() < 0.5] or [rng.choice(cand)]
+            bid, b = buckets[rng.randrange(len(buckets))]
+            hs = []
+            for h in b.headers:
+                c = type(h)()
+                c.CopyFrom(h)
+                hs.append(c)
+            for r in pick:
+                hs.append(type(b).Header(index=r, numberOfCells=0, size=0.0, hidingState=0))
+            hs.sort(key=lambda h: h.index)
+            del b.headers[:]
+            for h in hs:
+                b.headers.add().CopyFrom(h)
+            msgs.touch(bid)
+            changed += len(pick)
+            pack.bump("headers:added", len(pick))
+        else:
             victims = {r for r in empty if r in have}
             changed += _remove_headers(msgs, buckets, victims, pack)
     msgs.flush()
-    pack.log.append(f"headers[{style}]: {changed} records changed")
+    summary = ",".join(f"{u}x{used.count(u)}" for u in sorted(set(used)))
+    pack.log.append(f"headers[{summary or 'nothing applicable'}]: {changed} records changed")
     return changed > 0
 
 
